@@ -106,6 +106,8 @@ type FnSpec struct {
 	Post func(fx *FnExec, entry, exit *State, args []Value, ret Value, retIdx int)
 	// Args optionally overrides construction of symbolic arguments.
 	Args func(fx *FnExec, st *State) []Value
+	// OnJoin: see FnExec.OnJoin.
+	OnJoin func(fx *FnExec, fr *Frame, st *State, ifBlock *ssa.BasicBlock)
 }
 
 // VerifyFunc symbolically executes fn from a fully symbolic entry state and collects obligations.
@@ -123,7 +125,7 @@ func (cx *Ctx) VerifyFunc(fn *ssa.Function, spec *FnSpec) (fx *FnExec) {
 			}
 		}
 	}()
-	st := &State{Heap: map[*Object]Value{}, Ghost: map[string]*Term{}}
+	st := &State{Heap: map[*Object]Value{}, Ghost: map[string]*Term{"alloc": BV64(0)}}
 	var args []Value
 	if spec != nil && spec.Args != nil {
 		args = spec.Args(fx, st)
@@ -143,6 +145,9 @@ func (cx *Ctx) VerifyFunc(fn *ssa.Function, spec *FnSpec) (fx *FnExec) {
 	fx.Entry = ei
 	fx.EntryArgs = args
 	fx.EntryState = entry
+	if spec != nil && spec.OnJoin != nil {
+		fx.OnJoin = spec.OnJoin
+	}
 	// vacuity guard: requires must be satisfiable
 	fx.Obls = append(fx.Obls, &Oblig{Name: FuncName(fn) + "#cover.requires", Kind: "cover", Fn: FuncName(fn), Assumes: append([]*Term(nil), st.PC...), Goal: True, Cover: true, Entry: ei})
 	ri := 0
@@ -160,6 +165,19 @@ func (cx *Ctx) VerifyFunc(fn *ssa.Function, spec *FnSpec) (fx *FnExec) {
 type loopInfo struct {
 	measure *Term
 	entry   *State
+	head    *State
+	headFr  *Frame
+}
+
+// LoopHead returns the state that was assumed at the head of the (single) cut loop the path is in or has
+// passed through, or nil if the path never reached a cut loop.
+func (fr *Frame) LoopHead() (*State, *Frame) {
+	for _, li := range fr.loopInfo {
+		if li != nil && li.head != nil {
+			return li.head, li.headFr
+		}
+	}
+	return nil, nil
 }
 
 func (fx *FnExec) havocValue(st *State, v Value, t types.Type, name string) Value {
@@ -282,12 +300,18 @@ func (fx *FnExec) cutLoop(fr *Frame, h *ssa.BasicBlock, prev *ssa.BasicBlock, st
 			m := spec.Decreases(fx, fr, st)
 			fx.Oblige(st, fmt.Sprintf("%s%s#variant[loop%d]", fr.Prefix, fname, ord), "variant", And(SLt(m, li.measure), SLe(BV64(0), li.measure)), "", "loop variant decreases and is bounded below")
 		}
+		if spec.OnBackEdge != nil && fx.discoverLoop == nil {
+			spec.OnBackEdge(fx, li.head, li.headFr, fr, st)
+		}
 		return true
 	}
 	// entry from outside
 	entrySnap := st.Clone()
 	for _, nt := range spec.Invariant(fx, fr, st, entrySnap) {
 		fx.Oblige(st, fmt.Sprintf("%s%s#inv.init[loop%d.%s]", fr.Prefix, fname, ord, nt.Name), "inv.init", nt.T, "", "loop invariant holds on entry")
+	}
+	if spec.OnEntry != nil && fx.discoverLoop == nil {
+		spec.OnEntry(fx, fr, st)
 	}
 	// discover the write set of the loop body (fixpoint)
 	var wset []writeRec
@@ -316,6 +340,9 @@ func (fx *FnExec) cutLoop(fr *Frame, h *ssa.BasicBlock, prev *ssa.BasicBlock, st
 		f2 := bfr.fork()
 		for _, p := range phis {
 			f2.Env[p] = fx.havocValue(s2, f2.Env[p], p.Type(), p.Name()+"@"+p.Comment)
+		}
+		for g := range s2.Ghost {
+			s2.Ghost[g] = fx.Cx.Fresh(fmt.Sprintf("loop%d.ghost.%s", ord, g), BV(64))
 		}
 		for _, w := range wset {
 			cur, ok := s2.Heap[w.obj]
@@ -372,6 +399,8 @@ func (fx *FnExec) cutLoop(fr *Frame, h *ssa.BasicBlock, prev *ssa.BasicBlock, st
 	if spec.Decreases != nil {
 		li.measure = spec.Decreases(fx, f2, s2)
 	}
+	li.head = s2.Clone()
+	li.headFr = f2.fork()
 	if f2.loopInfo == nil {
 		f2.loopInfo = map[*ssa.BasicBlock]*loopInfo{}
 	}
